@@ -152,3 +152,28 @@ Print Assumptions C04_json_default_holds.
 Example C04_json_default_witness_holds : spec_C04 w_K6_json_default (run_C04 w_K6_json_default) = true /\ known_C04 w_K6_json_default = [].
 Proof. exact w_K6_json_default_holds. Qed.
 Print Assumptions C04_json_default_witness_holds.
+
+(* (11) updates of an existing value: the stored value after an update is the assigned one whatever was stored (values one
+        apart above 2^53, floats one ulp apart, strings differing in a trailing blank / case / normalisation, booleans,
+        numbers inside Json that differ as text only); the model has no state in which a write is not carried out *)
+Theorem C04_update_independent_of_old : forall h ty old old' new, run_C04 (CUpd h ty old new) = run_C04 (CUpd h ty old' new).
+Proof. exact upd_independent_of_old. Qed.
+Print Assumptions C04_update_independent_of_old.
+Theorem C04_update_holds : forall h ty old new, spec_C04 (CUpd h ty old new) (run_C04 (CUpd h ty old new)) = true.
+Proof. exact upd_holds. Qed.
+Print Assumptions C04_update_holds.
+Example C04_update_above_2p53_holds : spec_C04 w_upd_2p53 (run_C04 w_upd_2p53) = true /\ known_C04 w_upd_2p53 = [].
+Proof. exact w_upd_2p53_holds. Qed.
+Print Assumptions C04_update_above_2p53_holds.
+
+(* (12) the service is stateless with respect to request texts: the value a request writes, or filters on, is the value
+        its own literal denotes (line breaks and blanks inside a literal included), not that of an earlier request *)
+Theorem C04_service_stateless : forall pre l post, nth (List.length pre) (svc_values (pre ++ l :: post)) [] = decode_literal l.
+Proof. exact svc_stateless. Qed.
+Print Assumptions C04_service_stateless.
+Theorem C04_service_holds : forall lits, spec_C04 (CSvc lits) (run_C04 (CSvc lits)) = true.
+Proof. exact svc_holds. Qed.
+Print Assumptions C04_service_holds.
+Example C04_service_multiline_holds : spec_C04 w_svc_multiline (run_C04 w_svc_multiline) = true /\ known_C04 w_svc_multiline = [].
+Proof. exact w_svc_multiline_holds. Qed.
+Print Assumptions C04_service_multiline_holds.
